@@ -45,6 +45,11 @@ func c12Schema(order int) *j.Schema {
 	if err := s.AddType(TypeD{Name: "idonly"}.Type(false)); err != nil {
 		panic(err)
 	}
+	// a fifth type: the slice of types now has spare capacity (len 5, cap 8), as schemas
+	// grown by AddType usually do - an append to it writes into shared memory
+	if err := s.AddType(j.Type{Name: "e", Attrs: map[string]j.Attr{"v": {Name: "v", Type: j.AttrTypeString}}}); err != nil {
+		panic(err)
+	}
 	FixFromOne(s)
 	return s
 }
@@ -199,6 +204,10 @@ func c12Ops() []c12Op {
 			out, err := j.MarshalDocument(&j.Document{Data: r}, u)
 			return strings.ReplaceAll(string(out), name, "views") + fmt.Sprint(err)
 		}},
+		// a request that sends back the very document it received (the marshaler writes the
+		// self link into the document's own Links map)
+		c12Echo("a", `{"data":{"type":"a","id":"1","attributes":{"x":"v"}},"meta":{"m":1}}`, "/a/1"),
+		c12Echo("b", `{"data":{"type":"b","id":"2"},"links":{"next":"/n"}}`, "/b/2?sort=x"),
 		{"HasType", func(s *j.Schema) string { return fmt.Sprint(s.HasType("a"), s.HasType("c"), s.HasType("nope")) }},
 		{"GetType", func(s *j.Schema) string {
 			t, n := s.GetType("b"), s.GetType("nope")
@@ -207,6 +216,21 @@ func c12Ops() []c12Op {
 		{"Check", func(s *j.Schema) string { return fmt.Sprint(s.Check()) }},
 		{"Rels", func(s *j.Schema) string { return showRels(s.Rels()) }},
 	}
+}
+
+func c12Echo(name, payload, raw string) c12Op {
+	return c12Op{"Unmarshal+MarshalDocument(echo " + name + ")", func(s *j.Schema) string {
+		d, err := j.UnmarshalDocument([]byte(payload), s)
+		if err != nil {
+			return "error: " + err.Error()
+		}
+		u, err := j.NewURLFromRaw(s, raw)
+		if err != nil {
+			return "error: " + err.Error()
+		}
+		out, err := j.MarshalDocument(d, u)
+		return string(out) + fmt.Sprint(err, len(d.Links), len(d.Meta), len(d.RelData))
+	}}
 }
 
 var (
@@ -231,7 +255,7 @@ func c12ViewType() reflect.Type {
 
 // c12Shared renders the shared state: deep snapshot of the schema (all fields,
 // private ones included) ...
-func c12Shared(s *j.Schema) uint64 { return mc.SnapHash(s) }
+func c12Shared(s *j.Schema) uint64 { return mc.Hash(mc.SnapSpare(s)) }
 
 // ... complemented functionally for state reachable only through closures.
 func c12Functional(s *j.Schema) string {
@@ -419,7 +443,7 @@ func c12OpIdx(prefix string) int {
 
 // representative ops: URL parse, unmarshal, New+Set (struct), New+Set (ID-only struct), marshal, Check, Rels
 var c12Rep = []int{c12OpIdx("NewURLFromRaw(/a/1"), c12OpIdx("UnmarshalDocument(struct"), c12OpIdx("GetType(a)"), c12OpIdx("GetType(idonly)"),
-	c12OpIdx("MarshalDocument"), c12OpIdx("Check"), c12OpIdx("Rels")}
+	c12OpIdx("MarshalDocument"), c12OpIdx("Check"), c12OpIdx("Rels"), c12OpIdx("Unmarshal+MarshalDocument(echo b")}
 
 func c12Pairs(x *mc.Exec) {
 	n := len(c12Ops())
@@ -589,7 +613,7 @@ func init() {
 	_ = sort.Strings
 	Register(&Prop{
 		ID: "C12",
-		Rule: "Engine C (cooperative scheduler over the yield points the instrumenter puts before every statement) + snapshot monitor. Shared schema: a struct-backed type, a soft type with a two-way relationship to it, and a soft type with nil maps, in every order of the three types. 17 operations with private inputs (4 URL parses incl. a JSON and/or filter tree, wrapping and marshaling a handler's own view struct that is not in the schema - in the free-running pass a struct type never seen before on every call -, 2 document unmarshals, 2 partial unmarshals, Type.New()+Set for each type, marshaling an own document, HasType, GetType, Check, Rels). (1) every operation x 6 type orders run alone with the deep snapshot of the schema recomputed after EVERY statement (a change = a shared write, attributed to the function); (2) every operation against 6 representative operations on 2 threads (thorough: every ordered pair) and every triple of 3 (thorough 6) representative operations on 3 threads: ALL schedules with scheduling points at function entries and <= 1 preemption (thorough: <= 2), each thread's result compared with its solo result, schema snapshot unchanged; thorough adds statement-granularity schedules for 10 query-vs-parser pairs; (3) every ordered pair of operations run in sequence from the state the first one leaves (state count must stay 1); (4) a separate free-running pass of the same operation bodies under the Go race detector (2, 4, 16 goroutines). By the lemma in DESIGN.md 2.4, no write step in any solo run => no interleaving of any number of such threads contains one. Non-trivial = schedule with at least one context switch / monitored solo run",
+		Rule: "Engine C (cooperative scheduler over the yield points the instrumenter puts before every statement) + snapshot monitor. Shared schema: a struct-backed type, a soft type with a two-way relationship to it, and a soft type with nil maps, in every order of the three types. 19 operations with private inputs (two requests that echo the document they received, 4 URL parses incl. a JSON and/or filter tree, wrapping and marshaling a handler's own view struct that is not in the schema - in the free-running pass a struct type never seen before on every call -, 2 document unmarshals, 2 partial unmarshals, Type.New()+Set for each type, marshaling an own document, HasType, GetType, Check, Rels). (1) every operation x 6 type orders run alone with the deep snapshot of the schema recomputed after EVERY statement (a change = a shared write, attributed to the function); (2) every operation against 6 representative operations on 2 threads (thorough: every ordered pair) and every triple of 3 (thorough 6) representative operations on 3 threads: ALL schedules with scheduling points at function entries and <= 1 preemption (thorough: <= 2), each thread's result compared with its solo result, schema snapshot unchanged; thorough adds statement-granularity schedules for 10 query-vs-parser pairs; (3) every ordered pair of operations run in sequence from the state the first one leaves (state count must stay 1); (4) a separate free-running pass of the same operation bodies under the Go race detector (2, 4, 16 goroutines). By the lemma in DESIGN.md 2.4, no write step in any solo run => no interleaving of any number of such threads contains one. Non-trivial = schedule with at least one context switch / monitored solo run",
 		Assumptions: []string{"an unsynchronised write that stores an unchanged value is invisible to the snapshot monitor; it is left to the permuted type orders and to the free-running -race pass (supporting evidence)", "memory-model effects below statement granularity are not modelled"},
 		Harnesses: []Harness{
 			{Name: "C12/solo-monitor", Body: c12Solo},
